@@ -2,8 +2,9 @@
 C20 — terminated bodies stay terminated.
 
 Property statements only; proofs in `Lemmas/Body.lean`, `Lemmas/ServeLemmas.lean`,
-`Lemmas/Pipe.lean`. Entity streams are scripts that stay finished once finished or failed (the
-property's proviso is built into the script semantics of `ExactLen.poll`).
+`Lemmas/Pipe.lean`. Entity streams are scripts; a script stays finished once exhausted, and the
+property's proviso "stays failed once failed" is the explicit hypothesis `StaysFailed` (the model
+of `ExactLenStream` does not enforce it).
 "Further data" means data bytes: an entity stream that keeps yielding EMPTY chunks after the body
 has errored gets them passed through as empty frames (`PollOut.quiet` allows a zero-length
 frame); no data byte and no panic ever follows a terminal event (DESIGN section 9).
@@ -15,19 +16,28 @@ import HttpServeModel.Lemmas.PipeFaultsGz
 namespace HS
 
 /-- Bodies made by `serve` (Once, single stream, multipart), any request, any entity behaviour,
-any number of polls: once an outcome is terminal (end or error), every later outcome is quiet —
-not a panic, and carrying no data bytes. -/
+any number of polls, provided the entity's streams stay failed once they have failed: once an
+outcome is terminal (end or error), every later outcome is quiet — not a panic, and carrying no
+data bytes. -/
 theorem C20_serve_bodies_stay_terminated (q : Req) (e : Ent) (now : Nat) (r : Resp)
-    (hlen : e.len < U64) (h : serve q e now = .ok r) (scripts : List (List Ev)) (n : Nat) :
+    (hlen : e.len < U64) (h : serve q e now = .ok r) (scripts : List (List Ev))
+    (hsf : ∀ s ∈ scripts, StaysFailed s) (n : Nat) :
     ∃ b, BodyS.ofPlan r.plan scripts = .ok b ∧ quietAfterTerminal (outs (b.run n)) := by
   obtain ⟨b, hb, hinv⟩ := serve_body_inv q e now r hlen h scripts
-  exact ⟨b, hb, run_quiet_after_terminal n b hinv⟩
+  exact ⟨b, hb, run_quiet_after_terminal n b hinv (BodyS.ofPlan_staysFailed hsf hb)⟩
+
+/-- The proviso is necessary: a single-stream body whose entity stream yields data after its
+error (as `ChunkedReadFile`'s does) passes that data through after the error. -/
+example :
+    outs (BodyS.run 3 (.exact { stream := [.err, .chunk [7]], remaining := 1 })) =
+      [.errEntity, .data [7], .end_] := by decide
 
 /-- Stronger for multipart bodies: after a terminal event the state is the end state, and every
-later poll reports the end. -/
+later poll reports the end — whatever the parts' streams do afterwards (the current part's stream
+is dropped on its first error), so no `StaysFailed` proviso is needed here. -/
 theorem C20_multipart_fused (m : Multipart) (hinv : MInv m) (ht : m.poll.2.isTerminal = true) :
     Fused (.multi m.poll.1) := by
-  have := BodyS.terminal_fuses (.multi m) hinv (by simpa [BodyS.poll] using ht)
+  have := BodyS.terminal_fuses (.multi m) hinv trivial (by simpa [BodyS.poll] using ht)
   simpa [BodyS.poll] using this
 
 /-- Streaming bodies, ANY history of writes, flushes, aborts, drops, polls (any length, any chunk
